@@ -9,7 +9,7 @@ import (
 
 // ---- host spellings ----
 
-var dnsBases = []string{"example.com", "a.example.com", "xn--bcher-kva.example", "host-1.internal", "localhost", "b.co",
+var dnsBases = []string{"example.com", "a.example.com", "xn--bcher-kva.example", "host-1.internal", "localhost", "b.co", "ab--cd.example.com", "r3---x.internal",
 	"very-long-label-0123456789-0123456789-0123456789.example.org", "3com.net", "a", "x1.y2.z3.example"}
 var v4Bases = []string{"10.0.0.1", "127.0.0.1", "192.168.1.254", "255.255.255.255", "0.0.0.0", "8.8.8.8"}
 var v6Bases = []string{"::1", "2001:db8::1", "fe80::1:2:3:4", "::", "2001:db8:0:0:0:0:0:1", "0:0:0:0:0:0:0:1", "::ffff:10.0.0.1",
@@ -291,9 +291,9 @@ func genHostPort(r *core.Rand) string {
 // ---- cases ----
 
 func (P) Gen(r *core.Rand, tier string, emit func([]string)) {
-	nBasic, nExp, nConc, nRef, nOdd, nLib, nVfy, nPoll, nFault := 12, 4, 6, 4, 5, 60, 25, 1, 2
+	nBasic, nExp, nConc, nRef, nOdd, nLib, nVfy, nPoll, nFault, nSelf := 12, 4, 6, 4, 5, 60, 25, 1, 2, 6
 	if tier == "thorough" {
-		nBasic, nExp, nConc, nRef, nOdd, nLib, nVfy, nPoll, nFault = 160, 30, 60, 30, 60, 3000, 600, 8, 40
+		nBasic, nExp, nConc, nRef, nOdd, nLib, nVfy, nPoll, nFault, nSelf = 160, 30, 60, 30, 60, 3000, 600, 8, 40, 60
 	}
 	// the configuration space: the CA may be of any key kind NewConfig accepts (its signature says `interface{}`)
 	caOp := func(num, den int) []string {
@@ -301,6 +301,82 @@ func (P) Gen(r *core.Rand, tier string, emit func([]string)) {
 			return []string{"ca " + r.Pick(caKinds...)}
 		}
 		return nil
+	}
+	// hosts drawn from the names the configuration itself carries — the authority's own name (CN = DNS SAN), its
+	// organisation, the leaf organisation — in the same case, another case, with a port, as SNI and as CONNECT host;
+	// leaf organisation equal to / different from the authority's; every CA key kind. A leaf for the authority's own
+	// name may coincide with the CA certificate in subject and SAN; it must still chain to it.
+	for i := 0; i < nSelf; i++ {
+		kind := r.Pick("rsa", "rsa", "rsa", "rsa3072", "p256", "ed25519", "faulty", "p384")
+		leafOrg := r.Pick(caOrg, caOrg, caOrg, caOrg, "Martian Proxy", "Acme")
+		ops := []string{"ca " + kind}
+		if leafOrg != "Martian Proxy" || r.Bool() {
+			ops = append(ops, "org "+core.HexS(leafOrg))
+		}
+		own := []string{caName(kind), caName(kind), caName(kind), caOrg, leafOrg, "Martian Proxy", caName("rsa")}
+		ordinary := pool(r, 2)
+		// the own name as it stands, in each way a client can name it
+		switch r.Intn(3) {
+		case 0:
+			ops = append(ops, "get host "+core.HexS(caName(kind))+" -")
+		case 1:
+			ops = append(ops, "hs host "+core.HexS(caName(kind)+":"+port(r))+" -")
+		default:
+			ops = append(ops, "hs tls - "+core.HexS(caName(kind)))
+		}
+		for j, k := 0, r.Range(10, 18); j < k; j++ {
+			name := own[r.Intn(len(own))]
+			if r.Chance(1, 4) {
+				name = ordinary[r.Intn(len(ordinary))]
+			}
+			h := name
+			switch r.Intn(5) {
+			case 0:
+				h = mixCase(r, name)
+			case 1:
+				h = strings.ToUpper(name)
+			}
+			ldh := reLDH.MatchString(h) && !reAllNums.MatchString(h)
+			if strings.Contains(name, ":") {
+				h, ldh = name, false
+			}
+			withPort := h
+			if r.Bool() {
+				if strings.Contains(h, ":") {
+					withPort = "[" + h + "]:" + port(r)
+				} else {
+					withPort = h + ":" + port(r)
+				}
+			}
+			op := "get"
+			if r.Chance(1, 3) {
+				op = "hs"
+			}
+			switch r.Intn(4) {
+			case 0: // CONNECT authority, no SNI
+				ops = append(ops, fmt.Sprintf("%s host %s -", op, core.HexS(withPort)))
+			case 1: // SNI over an unrelated CONNECT authority
+				if !ldh {
+					op = "get"
+				}
+				ops = append(ops, fmt.Sprintf("%s host %s %s", op, core.HexS(spell(r, ordinary[0])), core.HexS(h)))
+			case 2: // TLS(): SNI only
+				if !ldh {
+					op = "get"
+				}
+				ops = append(ops, fmt.Sprintf("%s tls - %s", op, core.HexS(h)))
+			default:
+				ops = append(ops, fmt.Sprintf("%s host %s -", op, core.HexS(withPort)))
+			}
+			if r.Chance(1, 5) {
+				ops = append(ops, "vhl "+core.HexS(respell(r, name)))
+			}
+			if r.Chance(1, 10) {
+				leafOrg = r.Pick(caOrg, "Martian Proxy", "Acme")
+				ops = append(ops, "org "+core.HexS(leafOrg))
+			}
+		}
+		emit(ops)
 	}
 	for i := 0; i < nFault; i++ { // fault injection at the signing step x cache state (miss / valid hit / expired hit)
 		p := []string{genBase(r), genBase(r), genBase(r), genBase(r)}
@@ -355,7 +431,7 @@ func (P) Gen(r *core.Rand, tier string, emit func([]string)) {
 		}
 		emit(ops)
 	}
-	orgs := []string{"Martian Proxy", "Acme", "Org With Spaces, Inc.", "x"}
+	orgs := []string{"Martian Proxy", "Acme", "Org With Spaces, Inc.", "x", caOrg}
 	for i := 0; i < nBasic; i++ {
 		p := pool(r, r.Range(2, 5))
 		ops := caOp(1, 2)
@@ -421,7 +497,11 @@ func (P) Gen(r *core.Rand, tier string, emit func([]string)) {
 	for i := 0; i < nConc; i++ {
 		p := pool(r, 4)
 		ops := caOp(1, 3)
-		for j := 0; j < r.Intn(4); j++ {
+		warm := r.Intn(4)
+		if i%2 == 0 {
+			warm = 0 // cold start: the very first requests a Config sees arrive together
+		}
+		for j := 0; j < warm; j++ {
 			ops = append(ops, getOp(r, p, false))
 		}
 		ops = append(ops, concOp(r, p, 16))
